@@ -115,6 +115,8 @@ class Reductions(Contract):
                             pass
                         for route in ('np', 'method'):
                             yield dict(fn=fn, fmt=list(fm), shape=list(shape), axis=axis, route=route)
+                        if fm[2] <= 0 and axis is None and len(shape) == 1:
+                            yield dict(fn=fn, fmt=list(fm), shape=list(shape), axis=axis, route='np', vint=True)      # integer-typed array (vdtype int)
         # dot products
         for fx, fy in [((True, 4, 2), (False, 3, 1)), ((False, 3, 0), (False, 3, 3)), ((True, 6, 3), (True, 6, 6))]:
             for shx, shy in [((2,), (2,)), ((3,), (3,)), ((2, 2), (2, 2)), ((2, 2), (2,)), ((2, 3), (3, 2))] if tier == 'thorough' else [((2,), (2,)), ((3,), (3,)), ((2, 2), (2, 2))]:
@@ -131,7 +133,7 @@ class Reductions(Contract):
 
     def run(self, cfg, P, inp):
         s, n, f = cfg['fmt']
-        x = make_fxp(P, s, n, f, codes=inp['c'], shape=tuple(cfg['shape']), vdtype=float)
+        x = make_fxp(P, s, n, f, codes=inp['c'], shape=tuple(cfg['shape']), vdtype=int if cfg.get('vint') else float)
         b = dict(x.__dict__); v0 = list(elems(x.val))
         fn, axis, route = cfg['fn'], cfg['axis'], cfg['route']
         np = P.np
